@@ -2,7 +2,7 @@
 import os
 from .index import Program
 from .interp import Interp, Stats
-from . import intr_core, intr_coll, intr_serde, intr_misc
+from . import intr_core, intr_coll, intr_serde, intr_misc, intr_js
 
 _PROGRAM = None
 
@@ -21,6 +21,8 @@ def make_interp(program, stats=None, extra=()):
     intr_serde.register(I)
     intr_misc.register(I)
     intr_misc.register_glob(I)
+    intr_misc.register_regex_replace(I)
+    intr_js.register(I)
     for mod in extra:
         mod.register(I)
     return I
